@@ -652,6 +652,11 @@ func TestC10(t *testing.T) {
 	}, c10Prop(t, r, "every_point_x_api"))
 
 	hx.Rapid(r, t, "stop_at_every_point", r.N(2500, 25000), genC10, c10Prop(t, r, "stop_at_every_point"))
+
+	// several sessions per FSM object with a reactive remote and no harness
+	// step in between: what the race detector needs to see accesses of
+	// different sessions as unordered (C01/C04 invariants as the functional oracle)
+	hx.Rapid(r, t, "free_running_sessions", r.N(600, 8000), genFreeRunning, frProp(t, r, "free_running_sessions"))
 }
 
 var _ = netip.Addr{}
